@@ -133,6 +133,14 @@ func runs(bs [][]byte) [][2]int {
 	return out
 }
 
+// scribble overwrites a buffer that has been handed to a queue: a queue that kept a reference instead of the bytes
+// will hand out something else later.
+func scribble(p []byte) {
+	for i := range p {
+		p[i] = 0xEE
+	}
+}
+
 func bufq(in, out string) error {
 	fi, err := os.Open(in)
 	if err != nil {
@@ -187,13 +195,18 @@ func bufq(in, out string) error {
 			}
 			switch o.Op {
 			case "write":
-				r.Ret = q.write(mk(o.N))
+				p := mk(o.N)
+				r.Ret = q.write(p)
+				scribble(p) // the caller's buffer is the caller's again after the call (the proxy reuses reply buffers at once)
 			case "writev":
 				var bs [][]byte
 				for _, n := range o.Ns {
 					bs = append(bs, mk(n))
 				}
 				r.Ret = q.writev(bs)
+				for _, b := range bs {
+					scribble(b)
+				}
 			case "read":
 				p := make([]byte, o.N)
 				r.Ret = q.read(p)
